@@ -424,7 +424,24 @@ func ruleC20R2(w *World, r *Report) {
 			}
 		}
 		if !found {
-			r.undecided(rule, construct, w.pos(fn.Pos()), "no fmt.Sprintf with a constant format found")
+			// the same text put together with + (and strconv.Itoa for the numbers): read as the format it amounts to
+			for _, b := range fn.Blocks {
+				ret, ok := b.Instrs[len(b.Instrs)-1].(*ssa.Return)
+				if !ok || len(ret.Results) != 1 {
+					continue
+				}
+				if format, ops, ok := concatAsFormat(ret.Results[0]); ok && len(ops) > 0 {
+					found = true
+					if why := f(nil, format, ops); why != "" {
+						r.bad(rule, construct, w.pos(ret.Pos()), why)
+					} else {
+						r.ok(rule, construct, w.pos(ret.Pos()), "concatenation amounting to the format "+fmt.Sprintf("%q", format))
+					}
+				}
+			}
+		}
+		if !found {
+			r.undecided(rule, construct, w.pos(fn.Pos()), "no fmt.Sprintf with a constant format (and no concatenation that amounts to one) found")
 		}
 	}
 	check(str, "(*Position).String", func(c *ssa.Call, format string, ops []ssa.Value) string {
@@ -957,4 +974,53 @@ func ruleC20R5(w *World, r *Report) {
 			}
 		}
 	}
+}
+
+// concatAsFormat: a string built with + from constants, strings and strconv.Itoa(x) as the Sprintf format and operands
+// that produce the same text ("%s" for a string or a String() result, "%d" for Itoa).
+func concatAsFormat(v ssa.Value) (string, []ssa.Value, bool) {
+	var format strings.Builder
+	var ops []ssa.Value
+	var walk func(v ssa.Value, depth int) bool
+	walk = func(v ssa.Value, depth int) bool {
+		if depth > 12 {
+			return false
+		}
+		if sv, ok := constString(v); ok {
+			format.WriteString(strings.ReplaceAll(sv, "%", "%%"))
+			return true
+		}
+		switch x := v.(type) {
+		case *ssa.BinOp:
+			if x.Op == token.ADD && isStringType(x.Type()) {
+				return walk(x.X, depth+1) && walk(x.Y, depth+1)
+			}
+			return false
+		case *ssa.Call:
+			if sc := x.Call.StaticCallee(); sc != nil {
+				if sc.String() == "strconv.Itoa" && len(x.Call.Args) == 1 {
+					format.WriteString("%d")
+					ops = append(ops, x.Call.Args[0])
+					return true
+				}
+				if sc.Name() == "String" && sc.Signature.Recv() != nil && len(x.Call.Args) == 1 {
+					format.WriteString("%s")
+					a := x.Call.Args[0]
+					ops = append(ops, a)
+					return true
+				}
+			}
+			return false
+		}
+		if isStringType(v.Type()) {
+			format.WriteString("%s")
+			ops = append(ops, v)
+			return true
+		}
+		return false
+	}
+	if !walk(v, 0) {
+		return "", nil, false
+	}
+	return format.String(), ops, true
 }
